@@ -38,8 +38,9 @@ THEOREMS = [
     "Measured.C06.add_direct_exact", "Measured.C06.sub_direct_exact",
     "Measured.eqCore_direct_iff", "Measured.ltCore_direct_iff",
     "Measured.C06.add_simple", "Measured.C06.sub_simple", "Measured.eqCore_simple_iff", "Measured.ltCore_simple_iff",
+    "Measured.Obligations.FlatTemp.temperature_sub", "Measured.Obligations.FlatTemp.temperature_route_independent",
 ]
-LEAN_TARGETS = ["Props.C06", "Props.C12Direct", "Obligations.C02"]
+LEAN_TARGETS = ["Props.C06", "Props.C12Direct", "Obligations.C02", "Obligations.C10Flat"]
 QUICK = {"chunks": 4, "ops": 1500}
 THOROUGH = {"chunks": 16, "ops": 9000}
 RTOL = 1e-11
